@@ -4,6 +4,8 @@ import CookModel.Driver.Scale
 import CookModel.Driver.Syntax
 import CookModel.Driver.Aisle
 import CookModel.Driver.StdMeta
+import CookModel.Driver.Ffi
+import CookModel.Driver.Serde
 /- Registry of line-protocol handlers. One line per area. -/
 namespace Cook.Driver
 def handlers : List (List String → Option String) := [
@@ -12,6 +14,8 @@ def handlers : List (List String → Option String) := [
   handleScale,
   handleSyntax,
   handleAisle,
-  handleStdMeta
+  handleStdMeta,
+  handleFfi,
+  handleSerde
 ]
 end Cook.Driver
